@@ -64,7 +64,8 @@ def s_converge(F, res):
     good, reason, g = e8_state.eval_pass_first_round_is_some(F)
     key = "%s|Ok(None) only after comparing with the previous evaluation" % e8_state.resolver_roles(F)[1]
     # Ok(None) must also be on the equal edge of `eval != *last_eval`
-    cmpcalls = [bi for bi, t in mir.calls(g) if (t.get("callee") or "") in ("std::cmp::PartialEq::ne", "std::cmp::PartialEq::eq") and "CompiledTx" in (t.get("resolved") or "") + " ".join(t.get("gargs") or [])]
+    cmpcalls = [bi for b_ in [g] + [F.fns[st["rv"]["closure"]] for _, _, st in mir.stmts(g) if st["rv"]["k"] == "agg" and st["rv"].get("closure") in F.fns]
+                for bi, t in mir.calls(b_) if (t.get("callee") or "") in ("std::cmp::PartialEq::ne", "std::cmp::PartialEq::eq") and "CompiledTx" in (t.get("resolved") or "") + " ".join(t.get("gargs") or [])]
     if good and cmpcalls:
         res.add([ok("S-CONVERGE", key, where(g), reason + "; the new evaluation is compared with the previous one")])
     elif good:
@@ -255,6 +256,9 @@ def s_feeflow(F, res):
     for bi, s in somes:
         nsome += 1
         o = mir.provenance(g, du, s["rv"]["ops"][0], transparent_extra=("std::ops::Try::branch",))
+        # through a helper that returns Result<CompiledTx, Error> the error side shows up among the origins (an Error
+        # aggregate, a from_residual): `?` has removed it before the value is used
+        o = [x for x in o if not (x.kind == "call" and "from_residual" in (x.callee or "")) and not (x.kind == "agg" and (x.rv.get("adt") or "").endswith("::Error"))]
         if not o or not all(x.kind == "call" and x.term.get("trait") == "tx3_tir::compile::Compiler" and x.term.get("method") == "compile" for x in o):
             from_compile = False
     if edits:
